@@ -81,6 +81,18 @@ func c11Specs() []built {
 			out = append(out, spec.Spec{Name: fmt.Sprintf("c11-toggle%d-rel%d", ti, rel), Base: "new", Calls: calls})
 		}
 	}
+	// a link option switches URL parsing on; a caller may switch it off again afterwards, and then hrefs that
+	// net/url cannot parse (but a browser follows) reach the hardening pass
+	for _, mask := range []int{1, 2, 8, 16, 26, 31} {
+		calls := []C{attrsOn([]string{"href", "title", "rel", "target"}, "", "a", "area", "link"), {Op: "AllowURLSchemes", Names: []string{"http", "https", "mailto", "ftp"}}, opt("AllowRelativeURLs", true)}
+		for i, n := range optNames {
+			if mask&(1<<i) != 0 {
+				calls = append(calls, opt(n, true))
+			}
+		}
+		calls = append(calls, opt("RequireParseableURLs", false))
+		out = append(out, spec.Spec{Name: fmt.Sprintf("c11-opt%02d-unparsed", mask), Base: "new", Calls: calls})
+	}
 	out = append(out, specsByName("ugc", "cmd-ugc", "cmd-email", "links")...)
 	return buildAll(out)
 }
@@ -88,7 +100,9 @@ func c11Specs() []built {
 // hrefHasHost: does a browser resolve v (as written in the output) to a URL with a host of its own? For the special
 // schemes (http, https, ftp, ws, wss) the slashes are optional for a browser ("https:e.x/p" and "http:/e.x" name the host e.x).
 func hrefHasHost(v string) bool {
-	s := strings.ToLower(v)
+	// a browser strips leading and trailing C0 controls and spaces and removes tab / newline before it parses
+	s := strings.ToLower(strings.TrimFunc(v, func(r rune) bool { return r <= 0x20 }))
+	s = strings.NewReplacer("\t", "", "\n", "", "\r", "").Replace(s)
 	for _, p := range []string{"http:", "https:", "ftp:", "ws:", "wss:"} {
 		if strings.HasPrefix(s, p) {
 			return strings.Trim(s[len(p):], "/\\") != ""
